@@ -670,7 +670,7 @@ func adjustForAnchors(pf prefilter.Prefilter, strategy Strategy, re *syntax.Rege
 	hasMultilineAnchor := hasMultilineLineAnchor(re)
 
 	if pf != nil && pf.IsComplete() {
-		if hasMultilineAnchor && !hasNonLineAnchors(re) {
+		if hasMultilineAnchor && !hasNonLineAnchors(re) && onlyLeadingLineAnchors(re) {
 			// (?m)^ with complete literals and NO other anchors (\b, $):
 			// Use line-anchor wrapper — O(1) line-start check per candidate.
 			// This keeps IsComplete()=true so Teddy can return matches directly
@@ -702,6 +702,36 @@ func hasNonLineAnchors(re *syntax.Regexp) bool {
 		if hasNonLineAnchors(sub) {
 			return true
 		}
+	}
+	return false
+}
+
+// onlyLeadingLineAnchors reports whether every alternative of re begins with (?m)^
+// and no assertion occurs anywhere else, i.e. a line-start check at the candidate
+// position is all that the assertions of the pattern ask for.
+func onlyLeadingLineAnchors(re *syntax.Regexp) bool {
+	switch re.Op {
+	case syntax.OpBeginLine:
+		return true
+	case syntax.OpCapture:
+		return len(re.Sub) == 1 && onlyLeadingLineAnchors(re.Sub[0])
+	case syntax.OpAlternate:
+		for _, sub := range re.Sub {
+			if !onlyLeadingLineAnchors(sub) {
+				return false
+			}
+		}
+		return len(re.Sub) > 0
+	case syntax.OpConcat:
+		if len(re.Sub) == 0 || !onlyLeadingLineAnchors(re.Sub[0]) {
+			return false
+		}
+		for _, sub := range re.Sub[1:] {
+			if hasAnchorAssertions(sub) {
+				return false
+			}
+		}
+		return true
 	}
 	return false
 }
